@@ -9,3 +9,6 @@ pub mod target;
 
 #[cfg(test)]
 mod tests;
+
+#[cfg(feature = "verif-hooks")]
+pub mod verif;
